@@ -219,7 +219,8 @@ pub fn kind_banks(kind: &Kind, seed: u64) -> (u32, BankList) {
 }
 
 fn reconstruct(run: u32, banks: &BankList) -> Result<(bool, usize, bool), String> {
-    catch(|| match MainEvent::try_from_banks(run, banks.iter().map(|(n, d)| (n.as_str(), &d[..]))) {
+    let placed = crate::eventgen::PlacedBanks::new(banks, banks.len());
+    catch(|| match MainEvent::try_from_banks(run, placed.iter()) {
         Err(e) => {
             let _ = format!("{e}{e:?}");
             (false, 0, false)
